@@ -172,19 +172,44 @@ def count_obligations(vfiles):
     return n, names
 
 
-FORBIDDEN = re.compile(r"\b(Admitted|admit|Axiom|Parameter|Conjecture|Unset Guard|bypass_check|type-in-type|Admit Obligations)\b")
+FORBIDDEN = re.compile(r"\b(Admitted|admit|Axiom|Axioms|Parameter|Parameters|Conjecture|Unset Guard|bypass_check|type-in-type|impredicative-set|"
+                       r"Admit Obligations|Unset Positivity|Unset Universe)\b")
 
 
-def grep_forbidden():
+def strip_comments(text):
+    """Coq source without its comments (nested); string literals are kept as they are."""
+    out, i, depth, n, instr = [], 0, 0, len(text), False
+    while i < n:
+        c = text[i]
+        if depth == 0 and c == '"':
+            instr = not instr
+            out.append(c)
+            i += 1
+            continue
+        if not instr and text.startswith("(*", i):
+            depth += 1
+            i += 2
+            continue
+        if not instr and depth > 0 and text.startswith("*)", i):
+            depth -= 1
+            i += 2
+            continue
+        if depth == 0 or c == "\n":
+            out.append(c)
+        i += 1
+    return "".join(out)
+
+
+def grep_forbidden(vfiles=None):
+    """Declared axioms, admitted proofs, switched-off kernel checks in the given .v files (default: all)."""
     bad = []
-    for v in all_vfiles():
+    for v in (vfiles if vfiles is not None else all_vfiles()):
         p = os.path.join(COQ, v)
         if not os.path.exists(p):
             continue
-        for i, line in enumerate(open(p), 1):
-            l = re.sub(r"\(\*.*?\*\)", "", line)
-            if FORBIDDEN.search(l):
-                bad.append("%s:%d:%s" % (v, i, line.strip()))
+        for i, line in enumerate(strip_comments(open(p).read()).splitlines(), 1):
+            if FORBIDDEN.search(line):
+                bad.append("%s:%d:%s" % (v, i, line.strip()[:120]))
     return bad
 
 
@@ -229,6 +254,14 @@ def coq_check_props(prop_v, runners=(), timeout=900):
                 axioms.add(m.group(1))
     res["axioms"] = sorted(axioms)
     res["closed"] = closed
+    # the development declares no axiom and uses none: an axiom under a property theorem, or a forbidden word anywhere in
+    # the files the property rests on, breaks the obligation
+    bad = grep_forbidden(cone)
+    if axioms or bad:
+        res["ok"] = False
+        res["failed_file"] = prop_v
+        res["error"] = ("Print Assumptions reports axioms %s; " % sorted(axioms) if axioms else "") + \
+                       ("forbidden words: %s" % "; ".join(bad[:5]) if bad else "")
     return res
 
 
